@@ -26,6 +26,9 @@ func genManifest(r *vsim.Rand, allowUnsignedHinted bool) string {
 			if r.Intn(3) == 0 {
 				b.WriteString(`/sub\040dir`)
 			}
+			if r.Intn(6) == 0 {
+				b.WriteString("+Ab@c")
+			}
 		}
 		nBlocks := 1 + r.Intn(3)
 		total := 0
@@ -66,6 +69,9 @@ func genManifest(r *vsim.Rand, allowUnsignedHinted bool) string {
 			}
 			if r.Intn(5) == 0 {
 				name += ".txt"
+			}
+			if r.Intn(6) == 0 {
+				name += "+A" + randHex(r, 4) + "@" + randHex(r, 2) // a file name may look like a hint
 			}
 			fmt.Fprintf(&b, " %d:%d:%s", pos, l, name)
 			pos += l
@@ -248,6 +254,12 @@ func scenC18(w *vsim.World, spec *vsim.Spec) {
 	}
 
 	var delivered []c18delivered
+	// honest answers that carry the requested collection: who sends it and when it reaches the controller
+	type goodAnswer struct {
+		from    string
+		arrives time.Duration
+	}
+	var goodAnswers []goodAnswer
 	var finished atomic.Bool
 	lat := func() time.Duration {
 		switch w.Choose("latency-class", 3) {
@@ -292,6 +304,9 @@ func scenC18(w *vsim.World, spec *vsim.Spec) {
 				w.Fault("local-5xx")
 			}
 			rep.Latency = lat()
+			if rep.Status == 200 {
+				goodAnswers = append(goodAnswers, goodAnswer{"", w.Elapsed() + rep.Latency})
+			}
 			return rep
 		}
 		rm := remotes[cl]
@@ -342,6 +357,9 @@ func scenC18(w *vsim.World, spec *vsim.Spec) {
 			return &vsim.NetReply{Err: vsim.ErrConnReset, Latency: lat()}
 		}
 		rep.Latency = lat()
+		if b == "honest" && rep.Status == 200 {
+			goodAnswers = append(goodAnswers, goodAnswer{cl, w.Elapsed() + rep.Latency})
+		}
 		return rep
 	}
 	sys = newFedSys(w, cfg, handler)
@@ -425,6 +443,15 @@ func scenC18(w *vsim.World, spec *vsim.Spec) {
 			return
 		}
 		if askKind != "uuid" {
+			// An honest remote that holds the collection was asked and its answer reaches the
+			// controller well before the request's deadline: nothing the other remotes do
+			// (errors, wrong manifests, silence) may turn that into a failure.
+			for _, g := range goodAnswers {
+				if g.arrives+5*time.Second < cfg.timeout {
+					w.ViolationSig("c18/honest-answer-lost", path+":"+feature, "request for %s failed with %d although %q was asked, holds the collection and its honest answer arrives %s after the start of a request with a %s deadline (path=%s): %s", reqID, code, g.from, g.arrives, cfg.timeout, path, strings.TrimSpace(string(body)))
+					return
+				}
+			}
 			for _, d := range deliveredAtReturn {
 				if d.good {
 					w.ViolationSig("c18/honest-answer-lost", path+":"+feature, "request for %s failed with %d although an honest answer carrying the collection had been delivered from %q (path=%s): %s", reqID, code, d.from, path, strings.TrimSpace(string(body)))
